@@ -306,6 +306,19 @@ def hArangeF : Handler := handler fun args =>
                             .list ((arangeSpecF a p).map encF64)])
   | _ => none
 
+/-- `(linspace_f start stop num endpoint (chunks…))` (doubles as `(m e)`) ↦ `(step ((values…)…))` -/
+def hLinspaceF : Handler := handler fun args =>
+  match args with
+  | [a, b, num, ep, cs] => do
+    let a ← decF64 a
+    let b ← decF64 b
+    let num ← num.toNat?
+    let ep ← ep.toBool?
+    let cs ← cs.toNats?
+    pure (.list [encF64 (linspacePlanF a b num ep).step,
+                 .list ((linspaceValuesF a b num ep cs).map (fun blk => .list (blk.map encF64)))])
+  | _ => none
+
 /-- `(arange_old_lens start step (chunks…))` ↦ the block lengths of the plan before the repair (`none` = raised) -/
 def hArangeOldLens : Handler := handler fun args =>
   match args with
@@ -987,7 +1000,7 @@ def table : List (String × Handler) := [
   ("reshape_rechunk", hReshapeRechunk), ("reshape_check", hReshapeCheck), ("blocks_flat", hBlocksFlat),
   ("grid_op", hGridOp), ("stack_op", hStackOp), ("bcast_rows", hBcastRows), ("bcast_len1", hBcastLen1), ("list_op", hListOp), ("grid_cat", hGridCat), ("pad_const", hPadConst), ("squeeze_row", hSqueezeRow), ("expand_row", hExpandRow),
   ("arange", hArange), ("linspace", hLinspace), ("eye", hEye), ("diag", hDiag),
-  ("sf", hSoftFloat), ("arange_f", hArangeF), ("arange_old_lens", hArangeOldLens),
+  ("sf", hSoftFloat), ("arange_f", hArangeF), ("linspace_f", hLinspaceF), ("arange_old_lens", hArangeOldLens),
   ("normalize", hNormalize), ("blockdims", hBlockdims), ("intersect1d", hIntersect),
   ("old_to_new", hOldToNew), ("rechunk1d", hRechunk1d), ("divide_to_width", hDivide),
   ("merge_to_number", hMergeNum), ("graph_size", hGraphSize),
